@@ -120,6 +120,7 @@ def PC(n, **kw):
     return H(n, "sess_calls", unwindset=hints, **kw)
 
 PC_GLUE = [PC("pc_rollback_and_save_dense", unwindset={"drop_glue": 2}), PC("pc_prediction_gate", unwindset={"drop_glue": 2})]
+PC_SPARSE = [PC("pc_rollback_and_save_sparse", unwindset={"drop_glue": 2})]
 PC_ADJUST = [PC(n, unwindset={"drop_glue": 2, "verif_q": 9}) for n in names_in("sessions__p2p_session@calls.rs", "pc_adjust_.*")]
 PC_LOCKSTEP = [PC("pc_lockstep_frame", unwindset={"drop_glue": 2, "verif_q": 9})]
 PC_DELAY = [PC("pc_delay_1_to_0", unwindset={"drop_glue": 2, "verif_q": 9}, timeout=1200)]
@@ -157,7 +158,7 @@ def P(pid, harnesses, claim, note, **kw):
 P("C01", Q_ADD + Q_INPUT + Q_MISC + S_MIN + S_CONF + PC_GLUE[:1] + PC_ADJUST[:2] + U_STREAM_Q + U_STREAM_T + PC_ADJUST[2:],
   "Kernels of the confirmed-timeline property decided on the real code: (Q, inductive, any history/ring wrap) add_input stores gaplessly, flags the earliest frame whose real input differs from the prediction handed out, input() hands out stored values as Confirmed; discard never drops a frame that can still be requested; (S) the rollback target is the earliest of all mispredictions and the disconnect frame; confirmed-frame bookkeeping keeps every frame a rollback can ask for; (U) the receiver delivers exactly the frames after its newest one, once, in order, with the packet's values, and acks release exactly the acknowledged prefix.",
   "Session-level composition (several ticks of P2PSession from its initial state) is outside what CBMC can symbolically execute here (a 4-tick run needs > 2M symex steps and > 40 GB); the claim is the conjunction of the component contracts, not an end-to-end run. Ring size 8 (quick) / 16 (thorough) instead of 128; u8 inputs; packets of 1-2 decoded inputs.")
-P("C02", S_CELLS + Q_MISC + S_CONF + PC_GLUE[:1] + PC_ADJUST,
+P("C02", S_CELLS + Q_MISC + S_CONF + PC_GLUE[:1] + PC_ADJUST + PC_SPARSE,
   "Saved-state ring: after saving w+1 consecutive frames (the most a session holds) each of the w frames still open to rollback is loadable and returns exactly what was saved for it, for w = 1,2,3 and any base frame; load_frame moves the frame counter to the loaded frame; queue windows keep every frame from (confirmed-1) on.",
   "The request-list shape of whole advance_frame calls is decided only through these component contracts (see C01 note).")
 P("C03", Q_INPUT + Q_ADD + S_INPUTS,
@@ -205,6 +206,6 @@ P("C13", T_UNIT,
 P("C16", PC_MISUSE + PC_DISC[:1],
   "Run-time misuse on the real P2PSession: input for a remote/unknown handle, delay change or stats for the wrong player type, advancing with the local input missing or before synchronisation, disconnecting a local/unknown/already disconnected player (also via the sibling handle of the same address) return the documented error and leave frame counter, event queue, pending inputs, statuses and send queues unchanged.",
   "The SessionBuilder half of the property (accepted configurations == documented ones) is NOT decided: the by-value builder with three endpoint maps exceeds 25 min of symbolic execution per call sequence and triggers a Kani internal compiler error with the inline container model (probes/attempted/README.md).")
-P("C04", PC_GLUE[1:] + PC_LOCKSTEP + PC_ADJUST + S_CELLS,
+P("C04", PC_GLUE[1:] + PC_LOCKSTEP + PC_ADJUST + S_CELLS + PC_SPARSE[:1],
   "Prediction gate of the real advance_rollback_frame (rollback and local-input registration stubbed) from ANY frame counters, windows 1..3, dense and sparse saving: a new frame is simulated iff current - min(confirmed_frame(), current[, last saved]) < max_prediction (nothing confirmed counts as frame -1), a stalled call leaves the frame unchanged and returns no AdvanceFrame - so a peer starved for arbitrarily long never runs more than the window ahead; rollbacks load a frame inside the window whose cell holds it; lockstep (window 0): a frame is simulated iff every connected player's input for it has arrived, only with Confirmed/Disconnected inputs, never Save/Load.",
   "The gate harness stubs handle_rollback_and_save, register_local_inputs (its effect on the local newest frame is mimicked) and the spectator feed; windows 0..3 instead of 0..12 (the gate is parametric in the window).")
